@@ -215,6 +215,10 @@ func runHistory(c *vk.Ctx, cfg cfgT, hist []int, idx int64) bool {
 				}
 				if len(logons) != 1 {
 					viol("C06/acceptor-no-logon-reply", "valid approved Logon answered with "+types(res.Outs)+", want one Logon", k)
+				} else if res.Outs[0].Type != "A" {
+					// "it then replies with a Logon": the reply comes first; anything the session sends on its own account
+					// at logon (a ResendRequest for a sequence gap) follows it
+					viol("C06/acceptor-logon-reply-not-first", "valid approved Logon answered with "+types(res.Outs)+": a message of type "+res.Outs[0].Type+" was sent before the Logon reply", k)
 				} else if fixref.GetS(logons[0].Fields, rig.THeartBt) != wantHb || fixref.GetS(logons[0].Fields, rig.TEncrypt) != wantM {
 					viol("C06/acceptor-logon-reply-does-not-echo", fmt.Sprintf("reply carries 108=%s 98=%s, request had 108=%s 98=%s", fixref.GetS(logons[0].Fields, rig.THeartBt), fixref.GetS(logons[0].Fields, rig.TEncrypt), wantHb, wantM), k)
 				}
